@@ -4,3 +4,4 @@ pub mod accum;
 pub mod sym;
 pub mod input;
 pub mod recv;
+pub mod maps;
